@@ -11,6 +11,17 @@
 (* Surrogate.tla / BolfiPosterior.tla / C10.  Here a batch is atomic       *)
 (* (max_parallel_batches = 1) and the GP is a counter.                     *)
 (*                                                                         *)
+(* Deliberate deviations: update() / prepare_new_batch() are only reached  *)
+(* through iterate() (their direct use is documented but not modelled);    *)
+(* async_acq, pools and plotting are left out; a threshold is "given" or   *)
+(* "none" (the code then takes the minimum of the GP mean over the BOUNDS, *)
+(* L-BFGS-B from 10 prior draws of RandomState(0) - not the minimum over   *)
+(* the evidence points; the trace spec checks it against a grid oracle);   *)
+(* x_min of extract_result is a differential-evolution minimum of the GP   *)
+(* mean over the bounds seeded with the object's seed, not an evidence     *)
+(* point (trace spec: inside the bounds, mean <= mean at every evidence    *)
+(* point); `posts` remembers the last MaxPosts posteriors only.            *)
+(*                                                                         *)
 (* One pure operator per stage of a public call, transcribed from the      *)
 (* code; Stages(c, a) is the order in which the public method a.m runs     *)
 (* them ("loop" = `while not self.finished: self.iterate()`, "maybe_fit" = *)
